@@ -4,6 +4,7 @@ package verifsim
 
 import (
 	"fmt"
+	"reflect"
 	"runtime/debug"
 	"sort"
 	"strings"
@@ -729,6 +730,7 @@ func SetMapSeed(v uint64) { setMapRand(v) }
 type heldLock struct {
 	write bool
 	n     int
+	addrs []uintptr // addresses of the lock instances held under this expression text (split_rmw engines)
 }
 
 // Acquired / Released / Write are inserted by the instrumenter when an engine sets "lock_discipline": the simulator
@@ -754,6 +756,94 @@ func Acquired(key string, write bool) {
 		a.held[key] = h
 	}
 	h.n++
+}
+
+// AcquiredAt / ReleasedAt are Acquired / Released that also carry the address of the lock instance, and MidWrite is
+// inserted by the instrumenter before (or, for a read-modify-write statement, between the read and the write of) every
+// write to the state of a method's pointer receiver when an engine sets "split_rmw". The simulator otherwise switches
+// actors only at lock sites, so a critical section whose lock SCOPE is too narrow (an object updated while only some
+// other object's lock is held) could never lose an update in any simulated schedule. MidWrite is a scheduling point
+// exactly when the writer does not hold, in exclusive mode, a lock that is part of the written object (objects of types
+// without locks of their own: always): correct code excludes the other actors by some other lock and nothing changes;
+// code that excludes nobody loses the update in some schedule and the engine's own oracles see it.
+func AcquiredAt(key string, lock any, write bool) {
+	r := cur.Load()
+	if r == nil {
+		return
+	}
+	a := r.actorOfG()
+	if a == nil {
+		return
+	}
+	if a.held == nil {
+		a.held = map[string]*heldLock{}
+	}
+	h := a.held[key]
+	if h == nil {
+		h = &heldLock{write: write}
+		a.held[key] = h
+	}
+	h.n++
+	h.addrs = append(h.addrs, ptrOf(lock))
+}
+
+func ReleasedAt(key string, lock any) {
+	r := cur.Load()
+	if r == nil {
+		return
+	}
+	a := r.actorOfG()
+	if a == nil || a.held == nil {
+		return
+	}
+	if h := a.held[key]; h != nil {
+		p := ptrOf(lock)
+		for i := len(h.addrs) - 1; i >= 0; i-- {
+			if h.addrs[i] == p {
+				h.addrs = append(h.addrs[:i], h.addrs[i+1:]...)
+				break
+			}
+		}
+		h.n--
+		if h.n <= 0 {
+			delete(a.held, key)
+		}
+	}
+}
+
+func ptrOf(p any) uintptr {
+	v := reflect.ValueOf(p)
+	if v.Kind() != reflect.Pointer || v.IsNil() {
+		return 0
+	}
+	return v.Pointer()
+}
+
+func MidWrite(site string, recv any, typeHasOwnLocks bool) {
+	r := cur.Load()
+	if r == nil || r.killed.Load() {
+		return
+	}
+	a := r.actorOfG()
+	if a == nil {
+		return
+	}
+	var lo, hi uintptr
+	if v := reflect.ValueOf(recv); v.Kind() == reflect.Pointer && !v.IsNil() {
+		lo = v.Pointer()
+		hi = lo + v.Type().Elem().Size()
+	}
+	for _, h := range a.held {
+		if !h.write {
+			continue
+		}
+		for _, p := range h.addrs {
+			if p >= lo && p < hi {
+				return // an exclusive lock that is part of the written object is held
+			}
+		}
+	}
+	r.park(a, "write@"+site, nil)
 }
 
 func Released(key string) {
